@@ -22,7 +22,7 @@ META = dict(
          "two-context programs over every ordered pair of windows from a coarse grid; three-context programs A,B,A (the "
          "same window in two non-adjacent places); tables with a missing (NaT) time; a test configured on the depth column itself; one Config object run "
          "first on data lacking a configured stream and then on complete data; window bounds as ISO strings and "
-         "datetime objects; front ends: PandasStream (RangeIndex / shifted ints / DatetimeIndex), NumpyStream (ndarray / "
+         "datetime objects; front ends: PandasStream (RangeIndex / shifted ints / DatetimeIndex / repeated labels), NumpyStream (ndarray / "
          "dict), XarrayStream (time as dimension coordinate / as data variable / from a NetCDF-3 file path), NetcdfStream (in-memory Dataset / file path), QcConfig.run. Oracle per "
          "configured (context, stream, test): exactly one result whose subset mask equals starting<=t<ending and whose "
          "flags equal the real test function called directly on those rows with the context's parameters (the probe "
